@@ -370,6 +370,35 @@ def misc_bugclasses(prog, cfg_of_):
                         out.append((c, st, 'DCEQ', f"'{stmt_text(st, 70)}' removes {stmt_text(st.target)} from "
                                     f"{c.name}.__eq__: two {c.name} objects that differ only in it compare equal, so "
                                     f"`x not in list` de-duplication drops one of them"))
+    # ... and a hand-written __eq__ that looks at fewer fields than the generated one does the same wholesale
+    for c in prog.classes.values():
+        if c.module.generated or not c.is_dataclass or '__eq__' not in c.methods:
+            continue
+        eqm = c.methods['__eq__']
+        sn = eqm.params[0] if eqm.params else 'self'
+        seen_attrs, todo, done = set(), [eqm], set()
+        while todo:
+            m_ = todo.pop()
+            if m_.qname in done:
+                continue
+            done.add(m_.qname)
+            msn = m_.params[0] if m_.params else 'self'
+            for x in ast.walk(m_.node):
+                if isinstance(x, ast.Attribute) and isinstance(x.value, ast.Name) and x.value.id == msn:
+                    if x.attr in c.methods:
+                        todo.append(c.methods[x.attr])
+                    else:
+                        seen_attrs.add(x.attr)
+        dfields = [fi.name for fi in c.fields.values() if fi.origin == 'dataclass']
+        missing = [a for a in dfields if a not in seen_attrs]
+        compares_values = any(isinstance(x, ast.Compare) and isinstance(x.ops[0], (ast.Eq, ast.NotEq)) for x in ast.walk(eqm.node)) \
+            or len(done) > 1
+        if compares_values and 'id' in missing:
+            out.append((c, eqm.node, 'DCEQ',
+                        f"{c.name}.__eq__ is written by hand and compares {sorted(seen_attrs & set(dfields)) or sorted(seen_attrs)} "
+                        f"only (not {missing[:5]}...): two different {c.name} objects that agree on those - the same step "
+                        f"name on two assets that are not bound (asset None) - compare equal, so `x not in list` "
+                        f"de-duplication (entry points, reached steps) drops one of them"))
     for f in prog.all_funcs():
         if f.module.generated:
             continue
